@@ -258,3 +258,138 @@ class WireJson(Harness):
 
 
 register(WireJson())
+
+
+# ---------------------------------------------------------------------------------------------------------------------
+# the two ends of a wire are different interpreters
+# ---------------------------------------------------------------------------------------------------------------------
+class _Fixed:
+    """A chooser that always takes alternative k (mod n): the message palette is built identically on both ends."""
+
+    def __init__(self, k):
+        self.k = k
+
+    def pick(self, n, label=""):
+        return self.k % n
+
+    def choose(self, seq, label=""):
+        seq = list(seq)
+        return seq[self.k % len(seq)]
+
+    def flag(self, label=""):
+        return bool(self.k % 2)
+
+
+def palette_messages():
+    h = WireJson()
+    out = []
+    for k in range(len(WireJson.VARIANTS)):
+        for i in range(15):
+            out.append(h.make_msg(_Fixed(k), i))
+        n, s, b, o = WireJson.VARIANTS[k]
+        out.append(report.ControllerReport(s, "10.00", n, [(DatasetId(s, STRS[o]), b)]))
+    return out
+
+
+def cross_process_child(path):
+    """Runs in a second interpreter (another hash seed): decode what the first one encoded and compare with the same messages
+    built here."""
+    import json
+    import pickle
+
+    blobs = pickle.load(open(path, "rb"))
+    local = palette_messages()
+    bad = []
+    for k, (raw, mine) in enumerate(zip(blobs, local)):
+        try:
+            got = report.deserialize(raw) if isinstance(mine, report.ControllerReport) else serde.des_message(raw)
+        except Exception as e:
+            bad.append([k, f"decoder raised {type(e).__name__}: {e}"])
+            continue
+        if type(got) is not type(mine) or got != mine:
+            bad.append([k, f"{mine!r} decoded as {got!r}"[:300]])
+            continue
+        try:
+            hm = hash(mine)
+        except TypeError:
+            hm = None
+        if hm is not None and (hash(got) != hm or got not in {mine}):
+            bad.append([k, f"{mine!r}: equal after decoding but hashes differ (a lookup keyed by it fails)"[:300]])
+            continue
+        # identifiers inside are used as dictionary / set keys on the receiving side
+        for attr in ("ds", "worker", "origin"):
+            if hasattr(mine, attr):
+                a, b_ = getattr(mine, attr), getattr(got, attr)
+                try:
+                    if hash(a) != hash(b_) or b_ not in {a}:
+                        bad.append([k, f"{type(mine).__name__}.{attr}={a!r}: decoded copy is not found in a set holding the local one"])
+                except TypeError:
+                    pass
+        if hasattr(mine, "publish") and (got.publish != mine.publish or any(d not in got.publish for d in mine.publish)):
+            bad.append([k, f"TaskSequence.publish {mine.publish!r} vs {got.publish!r}"])
+        if isinstance(mine, report.ControllerReport):
+            for (d1, _), (d2, _) in zip(mine.results, got.results):
+                if hash(d1) != hash(d2) or d2 not in {d1}:
+                    bad.append([k, f"ControllerReport result id {d1!r}: decoded copy is not found in a dict keyed by the local one"])
+    print("CROSS-PROCESS-RESULT " + json.dumps(bad))
+
+
+class CrossProcess(Harness):
+    name = "wire-cross-process"
+    engine = "E1-crosshair"
+    properties = ("C17",)
+    rule = "one case = one message of the palette (every executor message class and a controller report, 6 value variants each) encoded here and decoded in a second interpreter with another hash seed; non-trivial = all"
+    assumptions = ["concrete execution over the palette (pickle crosses a C boundary, nothing here is symbolic): listed for completeness of the wire claim, not decided by the solver"]
+    outside = ["other python versions on the two ends"]
+
+    def functions(self):
+        return [serde.ser_message, serde.des_message, report.serialize, report.deserialize, DatasetId, WorkerId]
+
+    def custom_run(self, tier, seed, jobs):
+        import json
+        import os
+        import pickle
+        import subprocess
+        import sys
+        import tempfile
+        import time
+
+        from vf.runner import HarnessResult
+
+        t0 = time.perf_counter()
+        hr = HarnessResult(name=self.name, engine="concrete (two interpreters)")
+        hr.rule, hr.assumptions, hr.outside = self.rule, list(self.assumptions), list(self.outside)
+        hr.functions = repo_env.describe(self.functions())
+        msgs = palette_messages()
+        blobs = [report.serialize(m) if isinstance(m, report.ControllerReport) else serde.ser_message(m) for m in msgs]
+        with tempfile.NamedTemporaryFile("wb", suffix=".pkl", delete=False) as fh:
+            pickle.dump(blobs, fh)
+            path = fh.name
+        try:
+            env = dict(os.environ, PYTHONHASHSEED="12345", PYTHONPATH=os.path.dirname(os.path.dirname(os.path.abspath(__file__))))
+            r = subprocess.run([sys.executable, "-c", f"from vf import h_wire2; h_wire2.cross_process_child({path!r})"], capture_output=True, text=True, env=env, timeout=300)
+        finally:
+            os.unlink(path)
+        line = next((l for l in r.stdout.splitlines() if l.startswith("CROSS-PROCESS-RESULT ")), None)
+        hr.bounds = {"messages": len(msgs), "hash_seeds": [os.environ.get("PYTHONHASHSEED", "?"), "12345"]}
+        if line is None:
+            hr.crashes.append({"fatal": f"second interpreter gave no result: rc={r.returncode} {r.stderr[-400:]}"})
+            return hr
+        bad = json.loads(line[len("CROSS-PROCESS-RESULT "):])
+        hr.evaluations = len(msgs)
+        hr.nontrivial = len(msgs)
+        hr.exhaustive = True
+        hr.samples = [{"message": repr(m)[:100]} for m in msgs[:2]]
+        for k, why in bad[:10]:
+            hr.failures.append({"key": f"{type(msgs[k]).__name__}-changes-between-interpreters", "msg": why, "reproduced": True, "replay_msg": "",
+                                "replay": {"harness": self.name, "index": k}})
+        hr.wall_s = time.perf_counter() - t0
+        return hr
+
+    def replay(self, rep):
+        hr = self.custom_run("quick", 0, 1)
+        hit = [f for f in hr.failures if f["replay"]["index"] == rep.get("index")]
+        return bool(hit), rep.get("key", ""), hit[0]["msg"] if hit else "no difference"
+
+
+register(CrossProcess())
